@@ -11,6 +11,7 @@ import GoZero.Extracted.C16
 import GoZero.C16.ModelCache
 import GoZero.C16.ModelRW
 import GoZero.C16.ConcWheel
+import GoZero.C16.Model
 set_option maxRecDepth 8000
 namespace GoZero.C16.TieR5c
 open GoZero.C16
@@ -135,5 +136,82 @@ theorem tie_rwAdd_semantics :
 
 theorem updateOffset_size (rw : RW) (now : Nat) : (rw.updateOffset now).size = rw.size := by
   unfold RW.updateOffset; split <;> rfl
+
+/-! ### constructors: which argument initialises which field (round 5e)
+
+The keyed struct literal of every constructor, read field by field (`initOf`: a parameter of the constructor, a fresh
+container sized by a parameter, the clock, the package's empty LRU, …) and assembled into the MODEL's initial value: the
+result is proven equal to `Queue.new` / `Ring.new` / `RW.new` / (`default expiry`, `Cache.new 0`) for all arguments.  A
+field initialised from the wrong parameter (or dropped: Go's zero value) breaks the equality. -/
+
+inductive Init where
+  | param (name : String) | freshMap | freshSlice (len : String) | window (size : String) | clock | emptyLru | other (txt : String)
+  deriving Repr, DecidableEq
+
+def initOf : String → Init
+  | "size" => .param "size" | "interval" => .param "interval" | "expire" => .param "expire" | "limit" => .param "limit"
+  | "onEvict" => .param "onEvict" | "buckets" => .param "buckets"
+  | "make(map[string]any)" => .freshMap | "make(map[string]*list.Element)" => .freshMap
+  | "make([]any, size)" => .freshSlice "size" | "make([]any, n)" => .freshSlice "n"
+  | "newWindow[T, B](newBucket, size)" => .window "size"
+  | "timex.Now()" => .clock
+  | "emptyLruCache" => .emptyLru
+  | t => .other t
+
+def fieldInit (fields : List (String × String)) (f : String) : Option Init := (fields.lookup f).map initOf
+
+/-- a field the literal does not mention keeps Go's zero value: the reading must say so explicitly -/
+def absent (fields : List (String × String)) (f : String) : Bool := (fields.lookup f).isNone
+
+def queueOf (fields : List (String × String)) (size : Nat) : Option Queue :=
+  if fieldInit fields "elements" = some (.freshSlice "size") ∧ fieldInit fields "size" = some (.param "size")
+     ∧ absent fields "head" ∧ absent fields "tail" ∧ absent fields "count"
+  then some { elems := List.replicate size 0, size := size, head := 0, tail := 0, count := 0 } else none
+
+def ringOf (fields : List (String × String)) (n : Nat) : Option Ring :=
+  if fieldInit fields "elements" = some (.freshSlice "n") ∧ absent fields "index"
+  then some { elems := List.replicate n 0, index := 0 } else none
+
+def rwOf (fields : List (String × String)) (size interval now : Nat) : Option RW :=
+  if fieldInit fields "size" = some (.param "size") ∧ fieldInit fields "win" = some (.window "size")
+     ∧ fieldInit fields "interval" = some (.param "interval") ∧ fieldInit fields "lastTime" = some .clock
+     ∧ absent fields "offset" ∧ absent fields "ignoreCurrent"
+  then some { size := size, interval := interval, ignoreCurrent := false, offset := 0, lastTime := now,
+              buckets := List.replicate size [] } else none
+
+/-- (the default expiry `Set` / `Take` will use, the empty cache) -/
+def cacheOf (fields : List (String × String)) (expire slots : Nat) : Option (Nat × Cache) :=
+  if fieldInit fields "data" = some .freshMap ∧ fieldInit fields "expire" = some (.param "expire")
+     ∧ fieldInit fields "lruCache" = some .emptyLru
+  then some (expire, Cache.new 0 slots) else none
+
+theorem tie_newQueue_semantics (size : Nat) : queueOf newQueueFields size = some (Queue.new size) := by
+  have : (fieldInit newQueueFields "elements" = some (.freshSlice "size") ∧ fieldInit newQueueFields "size" = some (.param "size")
+     ∧ absent newQueueFields "head" ∧ absent newQueueFields "tail" ∧ absent newQueueFields "count") := by decide
+  simp only [queueOf, this, and_self, if_true, Queue.new]
+
+theorem tie_newRing_semantics (n : Nat) : ringOf newRingFields n = some (Ring.new n) := by
+  have : (fieldInit newRingFields "elements" = some (.freshSlice "n") ∧ absent newRingFields "index") := by decide
+  simp only [ringOf, this, and_self, if_true, Ring.new]
+
+theorem tie_newRollingWindow_semantics (size interval now : Nat) :
+    rwOf newRollingWindowFields size interval now = some (RW.new size interval false now) := by
+  have : (fieldInit newRollingWindowFields "size" = some (.param "size") ∧ fieldInit newRollingWindowFields "win" = some (.window "size")
+     ∧ fieldInit newRollingWindowFields "interval" = some (.param "interval") ∧ fieldInit newRollingWindowFields "lastTime" = some .clock
+     ∧ absent newRollingWindowFields "offset" ∧ absent newRollingWindowFields "ignoreCurrent") := by decide
+  simp only [rwOf, this, and_self, if_true, RW.new]
+
+/-- **`NewCache`: the default expiry IS the `expire` argument, the cache starts empty and unbounded** (options come after) -/
+theorem tie_newCache_semantics (expire slots : Nat) : cacheOf newCacheFields expire slots = some (expire, Cache.new 0 slots) := by
+  have : (fieldInit newCacheFields "data" = some .freshMap ∧ fieldInit newCacheFields "expire" = some (.param "expire")
+     ∧ fieldInit newCacheFields "lruCache" = some .emptyLru) := by decide
+  simp only [cacheOf, this, and_self, if_true]
+
+/-- `newKeyLru`: the limit and the eviction callback are the arguments; `newWindow`: the buckets built in the loop -/
+theorem tie_newKeyLru_newWindow_fields :
+    fieldInit newKeyLruFields "limit" = some (.param "limit") ∧ fieldInit newKeyLruFields "onEvict" = some (.param "onEvict")
+    ∧ fieldInit newKeyLruFields "elements" = some .freshMap
+    ∧ fieldInit newWindowFields "buckets" = some (.param "buckets") ∧ fieldInit newWindowFields "size" = some (.param "size") := by
+  decide
 
 end GoZero.C16.TieR5c
